@@ -834,6 +834,132 @@ func bigBurstC15(rng *rand.Rand, rep *report, N int, seed int64) {
 		total, P, subs[0].cap, subs[2].cap, time.Duration(maxLat.Load())))
 }
 
+// ---------- Close while deliveries are in flight (hot publishers), one child process, many trials ----------
+
+func pkgStacks(max int) string {
+	buf := make([]byte, 1<<20)
+	buf = buf[:runtime.Stack(buf, true)]
+	var out []byte
+	for i, blk := range bytes.Split(buf, []byte("\n\n")) {
+		if i > 0 && bytes.Contains(blk, []byte("toolchest/publisher.")) && len(out) < max {
+			out = append(out, blk...)
+			out = append(out, '\n', '\n')
+		}
+	}
+	if len(out) > max {
+		out = out[:max]
+	}
+	return string(out)
+}
+
+// hotCloseChild: 8 goroutines publish as fast as they can to a subscriber that drains its channel, so deliveries are
+// in flight (entering send, not parked on a full buffer) all the time; after 100-800us the subscriber (or the
+// publication) is closed, sometimes by two callers.  Close must return (bound 10s; on a hang the stacks of the
+// package's goroutines go into the report), the reader must see "closed", the publishers must not be stuck, the
+// other subscriber still works.  Timeouts 1min / 0 / -1s (only the non-positive ones when prop is c15): a
+// delivery started just before the close must never send on the closed channel (the child would die: panic).
+func hotCloseChild(seed int64, trials int, prop string) {
+	rng := rand.New(rand.NewSource(seed))
+	res := c10result{Hist: map[string]int{}}
+	fail := func(what, detail, sig string) {
+		res.Failures = append(res.Failures, failure{what, detail, sig, 0, seed})
+		out, _ := json.Marshal(res)
+		fmt.Println(string(out))
+		os.Exit(0)
+	}
+	for trial := 0; trial < trials; trial++ {
+		pub := publisher.NewPublication[int]()
+		tmo := []time.Duration{time.Minute, 0, -time.Second, time.Minute}[rng.Intn(4)]
+		if prop == "c15" {
+			tmo = []time.Duration{0, -time.Second}[rng.Intn(2)]
+		}
+		c := []int{0, 1, 64}[rng.Intn(3)]
+		var nT atomic.Int64
+		opts := []publisher.SubscriberOption[int]{publisher.WithTimeout[int](tmo), publisher.OnTimeout(func(int) { nT.Add(1) })}
+		shuffleOpts(rng, opts)
+		sub := pub.Subscribe(c, opts...)
+		other := pub.Subscribe(4096, publisher.WithFilter(func(i int) bool { return i == -1 }))
+		var stop atomic.Bool
+		var pubs sync.WaitGroup
+		for g := 0; g < 8; g++ {
+			pubs.Add(1)
+			go func() {
+				defer pubs.Done()
+				for i := 0; !stop.Load(); i++ {
+					pub.Publish(i)
+				}
+			}()
+		}
+		readerDone := make(chan struct{})
+		nRecv := 0
+		go func() {
+			defer close(readerDone)
+			for range sub.Receive() {
+				nRecv++
+			}
+		}()
+		time.Sleep(time.Duration(100+rng.Intn(700)) * time.Microsecond)
+		whole := rng.Intn(4) == 0
+		nClosers := 1 + rng.Intn(2)
+		closed := make(chan struct{})
+		var cw sync.WaitGroup
+		for k := 0; k < nClosers; k++ {
+			cw.Add(1)
+			go func() {
+				defer cw.Done()
+				if whole && k == 0 {
+					pub.Close()
+				} else {
+					sub.Close()
+				}
+			}()
+		}
+		go func() { cw.Wait(); close(closed) }()
+		select {
+		case <-closed:
+		case <-time.After(10 * time.Second):
+			st := pkgStacks(6000)
+			stop.Store(true)
+			fail("Close does not return (deadlock)",
+				fmt.Sprintf("trial %d: 8 goroutines publishing to a draining subscriber (buffer %d, timeout %v); %d Close call(s) (publication: %v) had not returned after 10s.  Goroutines inside the package:\n%s", trial, c, tmo, nClosers, whole, st),
+				prop+"-stress:close-hangs")
+		}
+		stop.Store(true)
+		pdone := make(chan struct{})
+		go func() { pubs.Wait(); close(pdone) }()
+		select {
+		case <-pdone:
+		case <-time.After(10 * time.Second):
+			fail("Publish blocks", fmt.Sprintf("trial %d: publishers still inside Publish 10s after the close.  Goroutines inside the package:\n%s", trial, pkgStacks(6000)), prop+"-stress:publish-blocks")
+		}
+		select {
+		case <-readerDone:
+		case <-time.After(10 * time.Second):
+			fail("a closed subscriber's channel never reports closed", fmt.Sprintf("trial %d (buffer %d, timeout %v)", trial, c, tmo), prop+"-stress:not-closed")
+		}
+		if !whole {
+			pub.Publish(-1)
+			select {
+			case v := <-other.Receive():
+				if v != -1 {
+					fail("closing a subscriber affected another one", fmt.Sprintf("trial %d: got %d", trial, v), prop+"-stress:others-affected")
+				}
+			case <-time.After(10 * time.Second):
+				fail("closing a subscriber affected another one", fmt.Sprintf("trial %d: the other subscriber did not get its message within 10s", trial), prop+"-stress:others-affected")
+			}
+			pub.Close()
+		}
+		res.Evals += nRecv + 1
+	}
+	if left := waitNoGoroutines(10 * time.Second); left != 0 {
+		fail("delivery goroutines remain after every subscriber was closed", fmt.Sprintf("%d goroutines of the package left:\n%s", left, pkgStacks(3000)), prop+"-stress:leak")
+	}
+	res.Hist["hot-close-trials"] = trials
+	res.Sample = fmt.Sprintf("%d trials: Close (1-2 callers, subscriber or publication) while 8 goroutines publish to a draining subscriber (buffer 0/1/64, timeout 1min/0/-1s)", trials)
+	out, _ := json.Marshal(res)
+	fmt.Println(string(out))
+}
+
 // ---------- C10: simultaneous closers of one subscriber (many trials in one child process) ----------
 
 func c10burstChild(seed int64, trials int) {
@@ -1179,6 +1305,8 @@ func roundC10(self string, rep *report, round int, seed int64) {
 	childRound(self, rep, round, seed, "-mode", "c10child", "-seed", fmt.Sprint(seed))
 }
 
+var sigProp = "c10"
+
 func childRound(self string, rep *report, round int, seed int64, args ...string) {
 	cmd := exec.Command(self, args...)
 	var stdout, stderr bytes.Buffer
@@ -1187,7 +1315,7 @@ func childRound(self string, rep *report, round int, seed int64, args ...string)
 	es := stderr.String()
 	if strings.Contains(es, "WARNING: DATA RACE") {
 		i := strings.Index(es, "WARNING: DATA RACE")
-		rep.Failures = append(rep.Failures, failure{"data race reported while closing concurrently with publishing", clip(es[i:], 1500), "c10-stress:race", round, seed})
+		rep.Failures = append(rep.Failures, failure{"data race reported while closing concurrently with publishing", clip(es[i:], 1500), sigProp+"-stress:race", round, seed})
 		return
 	}
 	if m := panicRe.FindString(es); m != "" {
@@ -1195,16 +1323,16 @@ func childRound(self string, rep *report, round int, seed int64, args ...string)
 		if f := frameRe.FindStringSubmatch(es); f != nil {
 			fr = f[1]
 		}
-		rep.Failures = append(rep.Failures, failure{"panic while closing concurrently with publishing", m + " at " + fr + "\n" + clip(es, 1200), "c10-stress:" + m, round, seed})
+		rep.Failures = append(rep.Failures, failure{"panic while closing concurrently with publishing", m + " at " + fr + "\n" + clip(es, 1200), sigProp+"-stress:"+m, round, seed})
 		return
 	}
 	if err != nil {
-		rep.Failures = append(rep.Failures, failure{"child process failed", clip(es, 1200), "c10-stress:child-failed", round, seed})
+		rep.Failures = append(rep.Failures, failure{"child process failed", clip(es, 1200), sigProp+"-stress:child-failed", round, seed})
 		return
 	}
 	var r c10result
 	if json.Unmarshal(bytes.TrimSpace(stdout.Bytes()), &r) != nil {
-		rep.Failures = append(rep.Failures, failure{"child process wrote no result", clip(stdout.String()+es, 800), "c10-stress:child-failed", round, seed})
+		rep.Failures = append(rep.Failures, failure{"child process wrote no result", clip(stdout.String()+es, 800), sigProp+"-stress:child-failed", round, seed})
 		return
 	}
 	for _, f := range r.Failures {
@@ -1236,9 +1364,14 @@ func main() {
 	out := flag.String("out", "", "")
 	rounds := flag.Int("rounds", 0, "")
 	roundSeed := flag.Int64("roundseed", 0, "replay exactly the round with this seed")
+	propFlag := flag.String("prop", "c10", "")
 	flag.Parse()
 	if *mode == "c10child" {
 		c10child(*seed)
+		return
+	}
+	if *mode == "hotclosechild" {
+		hotCloseChild(*seed, *rounds, *propFlag)
 		return
 	}
 	if *mode == "c10burstchild" {
@@ -1246,6 +1379,9 @@ func main() {
 		return
 	}
 	rep := &report{Mode: *mode, Histogram: map[string]int{}}
+	if *mode == "c15" {
+		sigProp = "c15"
+	}
 	R := map[string]int{"c06": 40, "c15": 12, "c10": 40}[*mode]
 	if *tier == "thorough" {
 		R = map[string]int{"c06": 600, "c15": 150, "c10": 600}[*mode]
@@ -1282,7 +1418,10 @@ func main() {
 				roundC15(rng, rep, 0, *roundSeed)
 			}
 		case "c10":
-			childRound(self, rep, 0, *roundSeed, "-mode", "c10burstchild", "-seed", fmt.Sprint(*roundSeed), "-rounds", "4000")
+			childRound(self, rep, 0, *roundSeed, "-mode", "hotclosechild", "-prop", "c10", "-seed", fmt.Sprint(*roundSeed), "-rounds", "150")
+			if len(rep.Failures) == 0 {
+				childRound(self, rep, 0, *roundSeed, "-mode", "c10burstchild", "-seed", fmt.Sprint(*roundSeed), "-rounds", "4000")
+			}
 			if len(rep.Failures) == 0 {
 				roundC10(self, rep, 0, *roundSeed)
 			}
@@ -1322,7 +1461,44 @@ func main() {
 			}
 		}
 	}
-	if *mode == "c10" && *roundSeed == 0 {
+	if (*mode == "c10" || *mode == "c15") && *roundSeed == 0 && len(rep.Failures) == 0 {
+		// Close while deliveries are in flight: child processes (a panic / hang is an observation)
+		n, tr := 2, 80
+		if *mode == "c15" {
+			n, tr = 1, 40
+		}
+		if *tier == "thorough" {
+			tr *= 10
+		}
+		var mu sync.Mutex
+		var wg sync.WaitGroup
+		for k := 0; k < n; k++ {
+			wg.Add(1)
+			go func() {
+				defer wg.Done()
+				local := &report{Histogram: map[string]int{}}
+				hs := *seed*611953 + int64(k) + 1
+				childRound(self, local, -10-k, hs, "-mode", "hotclosechild", "-prop", *mode, "-seed", fmt.Sprint(hs), "-rounds", fmt.Sprint(tr))
+				mu.Lock()
+				rep.Failures = append(rep.Failures, local.Failures...)
+				rep.Evaluations += local.Evaluations
+				for kk, v := range local.Histogram {
+					if kk != "rounds" {
+						rep.Histogram[kk] += v
+					}
+				}
+				if k == 0 {
+					rep.Samples = append(rep.Samples, local.Samples...)
+				}
+				mu.Unlock()
+			}()
+		}
+		wg.Wait()
+		if len(rep.Failures) > 1 {
+			rep.Failures = rep.Failures[:1]
+		}
+	}
+	if *mode == "c10" && *roundSeed == 0 && len(rep.Failures) == 0 {
 		// simultaneous closers: three child processes in parallel, thousands of trials each
 		trials := 4000
 		if *tier == "thorough" {
